@@ -58,11 +58,18 @@ class Projector:
     def draws(self, obj):
         """deviates drawn so far, inferred from the generator state (-1: not on the reference stream)"""
         st = json.dumps(obj._R.bit_generator.state, sort_keys=True, default=str)
-        for _ in range(400):
-            if st in self.ref_states:
-                return self.pos0 + self.ref_states.index(st) * self.nx
+        if st in self.ref_states:
+            return self.pos0 + self.ref_states.index(st) * self.nx
+        if st in self.__dict__.setdefault("off_stream", set()):
+            return -1
+        # extend the reference stream, but never beyond 1500 rows in total: an object that draws in another way (a child
+        # generator, blocks) is simply not on it, and finding that out must stay cheap (it is drift, not a verdict)
+        while len(self.ref_states) < 1500:
             self.ref.normal(0, 1, size=self.nx)
             self.ref_states.append(json.dumps(self.ref.bit_generator.state, sort_keys=True, default=str))
+            if self.ref_states[-1] == st:
+                return self.pos0 + (len(self.ref_states) - 1) * self.nx
+        self.off_stream.add(st)
         return -1
 
 
